@@ -30,10 +30,24 @@ def checker(sc, meta, log, tr):
             if not solicited and (adds or e["out"]):
                 out.append({"kind": "an unsolicited response changed the table or produced output", "time": e["t"],
                             "received": rm.get(e["hex"])})
+    # per address: when it last answered one of our queries (handler or bootstrap exchange) or sent us a query
+    contact_times = {}
+    for e in tr.events:
+        if e["kind"] == "EV_MSG":
+            req = parse_rendered(rm.get(e["hex"]))
+            if req is not None and req["y"] in ("q", "r"):
+                contact_times.setdefault(e["src"].script(), []).append(e["t"])
+        elif e["kind"] == "BOOT_TABLE":
+            contact_times.setdefault(e["handle"][1].script(), []).append(e["t"])
     for (t, kind, body) in log:
         if kind == "API_CONTACTS":
             m = re.match(r"(\S+) good=(\S*) questionable=(\S*)", body)
             if m:
+                for g in [x for x in m.group(2).split(",") if x]:
+                    if not any(t - 900 * 10**9 <= tc <= t for tc in contact_times.get(g, [])):
+                        out.append({"kind": "a contact is reported good although no datagram (answer or query) came from its "
+                                            "address in the last 15 minutes", "time": t, "contact": g})
+                        break
                 alls = [x for x in (m.group(2) + "," + m.group(3)).split(",") if x]
                 if own_addr in alls:
                     out.append({"kind": "the node lists its own address as a contact", "time": t})
